@@ -1642,7 +1642,9 @@ def np_sqrt(it, v):
             sq = z3.Function("sqrt", z3.RealSort(), z3.RealSort())
             p.ghost["__sqrt__"] = sq
             p.ghost["__sqrt_seen__"] = set()
-        p.add_ufact(UFact(1, lambda i: z3.And(sq(lift(vec.f(i), "real")) >= 0, sq(lift(vec.f(i), "real")) * sq(lift(vec.f(i), "real")) == lift(vec.f(i), "real")), [(0, vec.n)], "sqrt(v)"))
+        # domain: a negative argument gives NaN (numpy) - never assumed away (that would make the path vacuous)
+        p.prove(QAll(vec.n, lambda i: lift(vec.f(i), "real") >= 0), "sqrt/domain", kind="domain", desc="argument of np.sqrt >= 0 (element-wise)", props=it.config.get("implicit_props"))
+        p.add_ufact(UFact(1, lambda i: z3.Implies(lift(vec.f(i), "real") >= 0, z3.And(sq(lift(vec.f(i), "real")) >= 0, sq(lift(vec.f(i), "real")) * sq(lift(vec.f(i), "real")) == lift(vec.f(i), "real"))), [(0, vec.n)], "sqrt(v)"))
         return Arr.new(Vec(vec.n, lambda i: sq(lift(vec.f(i), "real")), "real"))
     if _is_arrayish(v):
         raise Unsupported("vector sqrt")
@@ -1656,7 +1658,8 @@ def np_sqrt(it, v):
     r = sq(x)
     if r.get_id() not in p.ghost["__sqrt_seen__"]:
         p.ghost["__sqrt_seen__"].add(r.get_id())
-        p.assume(z3.And(r >= 0, r * r == x))
+        p.prove(x >= 0, "sqrt/domain", kind="domain", desc="argument of sqrt >= 0 (NaN / ValueError otherwise)", props=it.config.get("implicit_props"))
+        p.assume(z3.Implies(x >= 0, z3.And(r >= 0, r * r == x)))
     return tag_np(it, r)
 
 
